@@ -39,10 +39,11 @@ func runC17(c *an.Ctx) {
 	p := c.P
 	const md = "ipld/merkledag"
 	fns := p.PkgFuncs(c16IO)
-	fNode := p.Field(c16IO, "BasicDirectory", "node")
-	fEst := p.Field(c16IO, "BasicDirectory", "estimatedSize")
-	fTot := p.Field(c16IO, "BasicDirectory", "totalLinks")
-	fLinks := p.Field(md, "ProtoNode", "links")
+	c16ResolveIO(p)
+	fNode := c16IOR.bNode
+	fEst := c16IOR.bEst
+	fTot := c16IOR.bTot
+	fLinks := c16IOR.pnLinks
 	upd, comp := c17Accounting(p, fEst)
 	if !c.Need(fNode != nil && fEst != nil && fTot != nil && fLinks != nil && upd != nil && comp != nil, "BasicDirectory.{node,estimatedSize,totalLinks}, ProtoNode.links, updateEstimatedSize, computeEstimatedSizeAndTotalLinks") {
 		return
@@ -139,14 +140,14 @@ func runC17(c *an.Ctx) {
 						addPos = pos
 					}
 				}
-				c.Check(ok, "O1", "R-PAIR", name, an.Callee(call).Name+"=>updateEstimatedSize(name,nil,link)", call.Pos(),
+				c.Check(ok, "O1", "R-PAIR", name, c15KeyName(call, "node-mutator")+"=>updateEstimatedSize(name,nil,link)", call.Pos(),
 					"link addition coupled with the estimate update for the same name and link on the success path",
 					"BasicDirectory.node gets a link added by "+an.Callee(call).Name+" but "+why+": estimatedSize no longer equals the serialized block size, so the sharding decision is taken on a wrong size")
 				var inc []ssa.Instruction
 				for _, t := range pick("tot+", dir) {
 					inc = append(inc, t.at)
 				}
-				c.Check(afterSuccess(inc), "O1", "R-PAIR", name, an.Callee(call).Name+"=>totalLinks+1", call.Pos(),
+				c.Check(afterSuccess(inc), "O1", "R-PAIR", name, c15KeyName(call, "node-mutator")+"=>totalLinks+1", call.Pos(),
 					"link addition coupled with totalLinks++ on the success path",
 					"a link is added to BasicDirectory.node without totalLinks being incremented exactly on the success path: the MaxLinks decision is taken on a wrong count")
 			case "remove":
@@ -186,7 +187,7 @@ func runC17(c *an.Ctx) {
 						rmPos = pos
 					}
 				}
-				c.Check(ok, "O1", "R-PAIR", name, an.Callee(call).Name+"=>updateEstimatedSize(name,link,nil)", call.Pos(),
+				c.Check(ok, "O1", "R-PAIR", name, c15KeyName(call, "node-mutator")+"=>updateEstimatedSize(name,link,nil)", call.Pos(),
 					"link removal coupled with the estimate update for the same name and the link that is removed",
 					"a link is removed from BasicDirectory.node by "+an.Callee(call).Name+" but "+why+": estimatedSize no longer equals the serialized block size")
 				var dec []ssa.Instruction
@@ -194,7 +195,7 @@ func runC17(c *an.Ctx) {
 					dec = append(dec, t.at)
 				}
 				okDec := len(dec) > 0 && (an.MustPrecede(f, call, dec) || afterSuccess(dec))
-				c.Check(okDec, "O1", "R-PAIR", name, an.Callee(call).Name+"=>totalLinks-1", call.Pos(),
+				c.Check(okDec, "O1", "R-PAIR", name, c15KeyName(call, "node-mutator")+"=>totalLinks-1", call.Pos(),
 					"link removal coupled with totalLinks--",
 					"a link is removed from BasicDirectory.node without totalLinks being decremented: the MaxLinks decision is taken on a wrong count")
 			default: // wholesale replacement (SetLinks, UnmarshalJSON, ...)
@@ -203,7 +204,7 @@ func runC17(c *an.Ctx) {
 					comps = append(comps, cc.at)
 				}
 				okF, _ := an.MustFollow(f, call, comps)
-				c.Check(len(comps) > 0 && okF, "O1", "R-PAIR", name, an.Callee(call).Name+"=>recompute", call.Pos(),
+				c.Check(len(comps) > 0 && okF, "O1", "R-PAIR", name, c15KeyName(call, "node-mutator")+"=>recompute", call.Pos(),
 					"wholesale link change followed by a recomputation of the estimate",
 					"the links of BasicDirectory.node are replaced by "+an.Callee(call).Name+" without computeEstimatedSizeAndTotalLinks afterwards")
 			}
@@ -362,9 +363,9 @@ func c17EstStores(c *an.Ctx, fns []*ssa.Function, fEst *types.Var) {
 				if c16SizeKind(v) == "block-data" {
 					// dataFieldSerializedSize(d.mode, d.mtime) of the same directory
 					ok = true
-					for i, want := range []string{"mode", "mtime"} {
+					for i, want := range []*types.Var{c16IOR.bMode, c16IOR.bMtime} {
 						fl, b := an.LoadedField(v.Call.Args[i])
-						if fl == nil || fl.Name() != want || !an.SameObj(b, base) {
+						if fl == nil || fl != want || !an.SameObj(b, base) {
 							ok, why = false, "dataFieldSerializedSize is not given this directory's mode and mtime"
 						}
 					}
@@ -753,15 +754,31 @@ func c17EncoderVsEstimator(c *an.Ctx) {
 func c17LinkEncoder(c *an.Ctx) {
 	p := c.P
 	const md = "ipld/merkledag"
-	mi := p.Func(md, "ProtoNode", "marshalImmutable")
-	if !c.Need(mi != nil, "ProtoNode.marshalImmutable") {
+	// by role: the functions of the package (with their closures) that build a
+	// dag-pb link map, i.e. write a "Hash" map entry
+	isEntry := an.M("github.com/ipld/go-ipld-prime/fluent/qp", "", "MapEntry")
+	var encs []*ssa.Function
+	for _, m := range p.PkgFuncs(md) {
+		if m.Parent() != nil {
+			continue
+		}
+		for _, cl := range an.WithClosures(m) {
+			for _, call := range an.Calls(cl, isEntry) {
+				if k, ok := an.ConstOf(call.Common().Args[1]); ok && k.Kind() == constant.String && constant.StringVal(k) == "Hash" {
+					encs = append(encs, cl)
+				}
+			}
+		}
+	}
+	if !c.Need(len(encs) > 0, "the dag-pb link encoder of ipld/merkledag (writes the \"Hash\" map entry)") {
 		return
 	}
+	const role = "ipld/merkledag.dag-pb-link-encoder"
 	want := map[string]string{"Hash": "Cid", "Name": "Name", "Tsize": "Size"}
 	found := map[string]bool{}
-	for _, cl := range an.WithClosures(mi) {
+	for _, cl := range encs {
 		keys := map[string]ssa.CallInstruction{}
-		for _, call := range an.Calls(cl, an.M("github.com/ipld/go-ipld-prime/fluent/qp", "", "MapEntry")) {
+		for _, call := range an.Calls(cl, isEntry) {
 			if k, ok := an.ConstOf(call.Common().Args[1]); ok && k.Kind() == constant.String {
 				keys[constant.StringVal(k)] = call
 			}
@@ -792,12 +809,12 @@ func c17LinkEncoder(c *an.Ctx) {
 			if call != nil {
 				pos = call.Pos()
 			}
-			c.Check(ok, "O6", "R-TABLE", an.FuncName(mi), "link-entry-"+key+"<=link."+field+"-unconditional", pos,
+			c.Check(ok, "O6", "R-TABLE", role, "link-entry-"+key+"<=link."+field+"-unconditional", pos,
 				"every encoded link carries "+key+" built from link."+field,
 				"dag-pb link encoding: "+why+" — linkSerializedSize counts tag+length+value of Hash, Name and Tsize for every link, so the estimate no longer equals the serialized size")
 		}
 	}
-	c.Min("O6 link entries found in marshalImmutable", len(found), 1)
+	c.Min("O6 link entries found in the dag-pb link encoder", len(found), 1)
 }
 
 // c17OneLinkPerTerm: O4 for all size calls and *ipld.Link literals of the package.
@@ -1120,4 +1137,14 @@ func c17Accounting(p *an.Prog, fEst *types.Var) (upd, comp *ssa.Function) {
 func c17IsUint64(t types.Type) bool {
 	b, ok := t.Underlying().(*types.Basic)
 	return ok && b.Kind() == types.Uint64
+}
+
+func c17Upd(p *an.Prog) *ssa.Function {
+	u, _ := c17Accounting(p, c16IOR.bEst)
+	return u
+}
+
+func c17Comp(p *an.Prog) *ssa.Function {
+	_, c := c17Accounting(p, c16IOR.bEst)
+	return c
 }
